@@ -88,7 +88,7 @@ def run_config(run, cfg, seed, tag):
             if [e for e in log if e[0] in ("model", "loss")] or ret != {}:
                 run.violation("first-observation", f"{tag} first call evaluated the model or returned {ret!r}", replay)
             continue
-        n_used = kw.get("n_inner_samples") or cfg["n_inner"]
+        n_used = kw.get("n_inner_samples") or sc.n_inner_now
         try:
             exp = ref.call(x, y, log, n_used)
         except Mismatch as m:
